@@ -356,3 +356,38 @@ func (r *Recorder) ProcessSlots(ctx context.Context, spec *common.Spec, epc *com
 	}
 	return ret
 }
+
+// InitUpgraded starts a history whose first state `state` was obtained by upgrading the phase0 genesis
+// state `pre` in place at slot 0 (fork epochs equal to 0).  The Init event then also carries the
+// pre-upgrade state and the oracle of the upgrade, and the trace specification checks
+// state = UpgradeMaybe(genesis_pre) (judged like a Slots event: "in-place upgrade at its configured epoch").
+func (r *Recorder) InitUpgraded(spec *common.Spec, pre, state common.BeaconState, meta map[string]interface{}, keys map[string]int) error {
+	p, err := absstate.Preset(spec)
+	if err != nil {
+		return err
+	}
+	p["KEYS"] = keys
+	abs, err := absstate.Project(spec, state)
+	if err != nil {
+		return err
+	}
+	preAbs, err := absstate.Project(spec, pre)
+	if err != nil {
+		return err
+	}
+	orc := &EpochOracle{Comms: [][][]int{}}
+	if abs.Fork != "phase0" {
+		// upgrade_to_altair at slot 0: get_next_sync_committee with base epoch 0 + 1
+		orc.SyncUp, err = syncOracle(spec, absstate.Unwrap(state), abs, 1)
+		if err != nil {
+			return err
+		}
+	}
+	r.C.Add("histories", 1)
+	r.C.Add("genesis_upgrades", 1)
+	if meta == nil {
+		meta = map[string]interface{}{}
+	}
+	meta["compensate_sync_cache"] = r.CompensateSyncCache
+	return r.emit(map[string]interface{}{"ev": "Init", "P": p, "state": abs, "meta": meta, "genesis_pre": preAbs, "genesis_oracle": orc})
+}
